@@ -71,6 +71,11 @@ def _returns_only_structured(stmts) -> bool:
             if not _returns_only_structured(s.body) or not _returns_only_structured(s.orelse):
                 return False
             continue
+        if isinstance(s, ast.Try) and not s.finalbody and not _contains(s.body, ast.Return):
+            # `try: A except E: H; return` followed by REST  ==  `try: A except E: H else: REST`
+            if all(_returns_only_structured(h.body) for h in s.handlers) and _returns_only_structured(s.orelse):
+                continue
+            return False
         if _contains([s], ast.Return):
             return False
     return True
@@ -278,15 +283,28 @@ class Expander:
                 rename[n] = n + suf
         # `x = self.make(...)` where make builds one local and returns it at its end: let that local *be* x (no alias)
         drop_tail = False
-        if mode == "assign" and isinstance(target, ast.Name) and body and isinstance(body[-1], ast.Return) and isinstance(body[-1].value, ast.Name) \
-                and body[-1].value.id in stored and body[-1].value.id not in actual and not _contains(body[:-1], ast.Return):
-            tname = target.id
-            lname = body[-1].value.id
-            clash = (tname != lname and any(isinstance(n, ast.Name) and n.id == tname for st_ in body for n in _walk_no_nested(st_))) \
-                or any(isinstance(n, ast.Name) and n.id == tname for v in actual.values() for n in ast.walk(v))
-            if not clash:
-                rename[body[-1].value.id] = tname
-                drop_tail = True
+        if mode == "assign" and body and isinstance(body[-1], ast.Return) and body[-1].value is not None and not _contains(body[:-1], ast.Return):
+            rv = body[-1].value
+            pairs = None
+            if isinstance(target, ast.Name) and isinstance(rv, ast.Name):
+                pairs = [(target.id, rv.id)]
+            elif isinstance(target, ast.Tuple) and isinstance(rv, ast.Tuple) and len(target.elts) == len(rv.elts) and all(isinstance(x, ast.Name) for x in list(target.elts) + list(rv.elts)):
+                pairs = [(t_.id, l_.id) for t_, l_ in zip(target.elts, rv.elts)]
+            if pairs and len({l_ for _, l_ in pairs}) == len(pairs) and all(l_ in stored and l_ not in actual for _, l_ in pairs):
+                locs = {l_ for _, l_ in pairs}
+                clash = False
+                for tname, lname in pairs:
+                    if any(isinstance(n, ast.Name) and n.id == tname and n.id not in locs for st_ in body for n in _walk_no_nested(st_)):
+                        clash = True
+                    if any(isinstance(n, ast.Name) and n.id == tname for v in actual.values() for n in ast.walk(v)):
+                        clash = True
+                # a target that is also another pair's local would be renamed twice
+                if {t_ for t_, _ in pairs} & (locs - {l_ for t_, l_ in pairs if t_ == l_}) - {t_ for t_, l_ in pairs if t_ == l_}:
+                    clash = clash or any(t_ in locs and t_ != l_ for t_, l_ in pairs)
+                if not clash:
+                    for tname, lname in pairs:
+                        rename[lname] = tname
+                    drop_tail = True
         rn = _Rename(rename, subst)
         body = [rn.visit(s) for s in body]
         if drop_tail:
@@ -329,6 +347,11 @@ class Expander:
             body = self._structure(s.body, after, mode, target) or [ast.Pass()]
             orelse = self._structure(s.orelse, after, mode, target)
             return [ast.copy_location(ast.If(test=s.test, body=body, orelse=orelse), s)]
+        if isinstance(s, ast.Try) and _contains([s], ast.Return):
+            after = self._structure(rest, cont, mode, target)
+            handlers = [ast.copy_location(ast.ExceptHandler(type=h.type, name=h.name, body=self._structure(h.body, after, mode, target) or [ast.Pass()]), h) for h in s.handlers]
+            orelse = self._structure(s.orelse, after, mode, target)
+            return [ast.copy_location(ast.Try(body=s.body, handlers=handlers, orelse=orelse, finalbody=[]), s)]
         return [s] + self._structure(rest, cont, mode, target)
 
     # ---- traversal ----------------------------------------------------------------------------------------------
@@ -681,8 +704,11 @@ class TableEvaluator:
             if not isinstance(loop.target, ast.Name) or not all(_pure(r) for r in it.elts):
                 return None
             cells = list(it.elts)
-        # a dispatch table: some cell refers to a method of the class
-        if not any(isinstance(e, ast.Attribute) and isinstance(e.value, ast.Name) and e.value.id == "self" and e.attr in methods for e in cells):
+        # a dispatch table: some cell refers to a method of the class; or a short literal sequence of local objects
+        # (`for msg in (connect_v2, connect_v1): self.send_message(msg)`)
+        is_dispatch = any(isinstance(e, ast.Attribute) and isinstance(e.value, ast.Name) and e.value.id == "self" and e.attr in methods for e in cells)
+        is_locals = not isinstance(loop.target, ast.Tuple) and 2 <= len(cells) <= 4 and all(isinstance(e, ast.Name) for e in cells)
+        if not (is_dispatch or is_locals):
             return None
         names = {t.id for t in (loop.target.elts if isinstance(loop.target, ast.Tuple) else [loop.target])}
         for b in loop.body:
